@@ -1,4 +1,5 @@
 import Proofs.E2E.Basic
+import Proofs.C01.CapstoneCofactor
 import Proofs.C03.BatchThm
 /-
 End-to-end corollaries for C03 (BIP340): `Props/C03.lean`'s theorems with `L := lawful_ec K h34`.
@@ -12,6 +13,8 @@ What transfers to the raw pairs of `Btc.EC.ops C`, and what is stated over `opsS
   pairs with `lift_x` answering only inside the `n`-torsion: on a curve with a cofactor the unrestricted `lift_x` does
   leave the prime-order subgroup, and "verify ⇔ BIP340's equation in the group of order n" is then not true of it.
 -/
+open WeierstrassCurve
+
 namespace Btc.E2E
 open Btc Btc.EC Btc.C01 Btc.Schnorr
 
@@ -157,6 +160,216 @@ theorem batch_one_bad_fails_ec (K : CurveOk p C) (h34 : p % 4 = 3) (prm : Params
       (Schnorr.batch_one_bad_fails (lawful_ec K h34) prm coef it0 it1 rest j bad hj hbad hothers hcoef)
 
 end
+
+/-! ## transfer to the raw pairs of `Btc.EC.ops C` under cofactor one
+
+`opsSub K` differs from `Btc.EC.ops C` only in `lift_x`.  `hL` says the filter never fires; it follows from the
+cofactor-one hypothesis `hcof : ∀ g, n • g = 0` and `Δ ≠ 0` (`liftAgree03`, C01's `liftXSub_val_of_cofactor_one`).
+Under it every run of verify / batch over `opsSub K` IS the run over `Btc.EC.ops C`, refusal classes included. -/
+section Transfer
+variable {p : ℕ} [Fact p.Prime] {C : Curve}
+
+theorem liftAgree03 (K : CurveOk p C) (h34 : p % 4 = 3)
+    (hcof : ∀ g : Pt p C.toCurveGroup, C.n • g = 0)
+    (hΔ : (curveOf p C.toCurveGroup).toAffine.Δ ≠ 0) :
+    ∀ x : ℤ, ((opsSub K).liftX x).map Subtype.val = (EC.ops C).liftX x :=
+  fun x => liftXSub_val_of_cofactor_one K h34 hcof hΔ x
+
+variable (K : CurveOk p C) (hL : ∀ x : ℤ, ((opsSub K).liftX x).map Subtype.val = (EC.ops C).liftX x)
+include hL
+
+theorem isXCoord_eq (x : ℤ) : isXCoord (opsSub K) x = isXCoord (EC.ops C) x := by
+  unfold isXCoord
+  rw [← hL x, Option.isSome_map]
+  rfl
+
+theorem sigValid_eq (sg : Sig) : sigValid (opsSub K) sg = sigValid (EC.ops C) sg := by
+  unfold sigValid
+  rw [isXCoord_eq K hL]
+  rfl
+
+theorem assertAsValid_eq (prm : Params) (msg : Bytes) (xQ : ℤ) (sg : Sig) :
+    assertAsValid (opsSub K) prm msg xQ sg = assertAsValid (EC.ops C) prm msg xQ sg := by
+  unfold assertAsValid
+  rw [sigValid_eq K hL]
+  cases sigValid (EC.ops C) sg with
+  | error e => rfl
+  | ok u =>
+    simp only []
+    have h := hL xQ
+    cases hs : (opsSub K).liftX xQ with
+    | none =>
+      rw [hs] at h
+      simp only [Option.map_none] at h
+      rw [← h]
+    | some Q =>
+      rw [hs] at h
+      simp only [Option.map_some] at h
+      rw [← h]
+      rfl
+
+theorem verify_eq (prm : Params) (msg : Bytes) (xQ : ℤ) (sg : Sig) :
+    Schnorr.verify (opsSub K) prm msg xQ sg = Schnorr.verify (EC.ops C) prm msg xQ sg := by
+  unfold Schnorr.verify
+  rw [assertAsValid_eq K hL]
+
+theorem allSigValid_eq (items : List Item) : allSigValid (opsSub K) items = allSigValid (EC.ops C) items := by
+  induction items with
+  | nil => rfl
+  | cons it rest ih =>
+    unfold allSigValid
+    rw [sigValid_eq K hL, ih]
+
+omit hL in
+theorem batchTerms_eq (prm : Params) (coef : ℕ → ℤ) (i : ℕ) (items : List Item) :
+    batchTerms (opsSub K) prm coef i items = batchTerms (EC.ops C) prm coef i items := by
+  induction items generalizing i with
+  | nil => rfl
+  | cons it rest ih =>
+    unfold batchTerms
+    rw [ih (i + 1)]
+    rfl
+
+theorem liftAll_val (terms : List (ℤ × ℤ)) :
+    (match liftAll (opsSub K) terms with
+     | .error e => .error e
+     | .ok pts => .ok (pts.map fun aP => (aP.1, aP.2.1))) = liftAll (EC.ops C) terms := by
+  induction terms with
+  | nil => rfl
+  | cons ax rest ih =>
+    obtain ⟨a, x⟩ := ax
+    unfold liftAll
+    have h := hL x
+    cases hs : (opsSub K).liftX x with
+    | none =>
+      rw [hs] at h
+      simp only [Option.map_none] at h
+      rw [← h]
+    | some Q =>
+      rw [hs] at h
+      simp only [Option.map_some] at h
+      rw [← h, ← ih]
+      cases liftAll (opsSub K) rest with
+      | error e => rfl
+      | ok ps => rfl
+
+omit hL in
+theorem multiMult_val (pts : List (ℤ × SubPt p C)) :
+    (multiMult (opsSub K) pts).1 = multiMult (EC.ops C) (pts.map fun aP => (aP.1, aP.2.1)) := by
+  induction pts with
+  | nil => rfl
+  | cons aP rest ih =>
+    obtain ⟨a, P⟩ := aP
+    show (EC.ops C).add ((EC.ops C).mul a P.1) (multiMult (opsSub K) rest).1 = _
+    rw [ih]
+    rfl
+
+/-- **`assert_batch_as_valid_` over `opsSub K` IS the run over `Btc.EC.ops C`** (same verdict, same refusal) -/
+theorem assertBatch_eq (prm : Params) (coef : ℕ → ℤ) (items : List Item) :
+    assertBatch (opsSub K) prm coef items = assertBatch (EC.ops C) prm coef items := by
+  match items with
+  | [] => rfl
+  | [it] => exact assertAsValid_eq K hL prm it.msg it.xQ it.sg
+  | it0 :: it1 :: rest =>
+    unfold assertBatch
+    rw [allSigValid_eq K hL, batchTerms_eq K]
+    cases allSigValid (EC.ops C) (it0 :: it1 :: rest) with
+    | error e => rfl
+    | ok u =>
+      simp only []
+      cases batchTerms (EC.ops C) prm coef 0 (it0 :: it1 :: rest) with
+      | error e => rfl
+      | ok tt =>
+        obtain ⟨t, terms⟩ := tt
+        simp only []
+        rw [← liftAll_val K hL terms]
+        cases liftAll (opsSub K) terms with
+        | error e => rfl
+        | ok pts =>
+          simp only []
+          rw [← multiMult_val K pts]
+          rfl
+
+theorem batchVerify_eq (prm : Params) (coef : ℕ → ℤ) (items : List Item) :
+    batchVerify (opsSub K) prm coef items = batchVerify (EC.ops C) prm coef items := by
+  unfold batchVerify
+  rw [assertBatch_eq K hL]
+
+/-- **C03-T2 on the raw pairs of `Btc.EC.ops C`** (cofactor one) -/
+theorem verify_iff_raw (h34 : p % 4 = 3) (prm : Params) (msg : Bytes) (xQ : ℤ) (sg : Sig) :
+    Schnorr.verify (EC.ops C) prm msg xQ sg = true ↔
+      0 ≤ sg.r ∧ sg.r < C.p ∧ 0 ≤ sg.s ∧ sg.s < C.n ∧
+      ∃ Q : Point, (EC.ops C).liftX xQ = some Q ∧
+        challengeInt (EC.ops C) prm msg xQ sg.r ≠ 0 ∧
+        (EC.ops C).isZero ((EC.ops C).sub ((EC.ops C).mul sg.s C.G)
+          ((EC.ops C).mul (challengeInt (EC.ops C) prm msg xQ sg.r) Q)) = false ∧
+        (EC.ops C).hasEvenY ((EC.ops C).sub ((EC.ops C).mul sg.s C.G)
+          ((EC.ops C).mul (challengeInt (EC.ops C) prm msg xQ sg.r) Q)) = true ∧
+        (EC.ops C).x ((EC.ops C).sub ((EC.ops C).mul sg.s C.G)
+          ((EC.ops C).mul (challengeInt (EC.ops C) prm msg xQ sg.r) Q)) = sg.r := by
+  rw [← verify_eq K hL, verify_iff_ec K h34]
+  constructor
+  · rintro ⟨h1, h2, h3, h4, Q, hQ, hrest⟩
+    exact ⟨h1, h2, h3, h4, Q.1, opsSub_liftX K hQ, hrest⟩
+  · rintro ⟨h1, h2, h3, h4, Q, hQ, hrest⟩
+    have h := hL xQ
+    rw [hQ] at h
+    obtain ⟨Q', hQ', rfl⟩ := Option.map_eq_some_iff.mp h
+    exact ⟨h1, h2, h3, h4, Q', hQ', hrest⟩
+
+theorem batch_complete_raw (h34 : p % 4 = 3) (prm : Params) (coef : ℕ → ℤ) (items : List Item)
+    (hne : items ≠ []) (hall : ∀ it ∈ items, Schnorr.verify (EC.ops C) prm it.msg it.xQ it.sg = true) :
+    batchVerify (EC.ops C) prm coef items = true := by
+  rw [← batchVerify_eq K hL]
+  exact batch_complete_ec K h34 prm coef items hne (fun it hit => by rw [verify_eq K hL]; exact hall it hit)
+
+theorem batch_one_bad_fails_raw (h34 : p % 4 = 3) (prm : Params) (coef : ℕ → ℤ) (it0 it1 : Item)
+    (rest : List Item) (j : ℕ) (bad : Item)
+    (hj : (it0 :: it1 :: rest)[j]? = some bad)
+    (hbad : Schnorr.verify (EC.ops C) prm bad.msg bad.xQ bad.sg = false)
+    (hothers : ∀ k it', (it0 :: it1 :: rest)[k]? = some it' → k ≠ j →
+      Schnorr.verify (EC.ops C) prm it'.msg it'.xQ it'.sg = true)
+    (hcoef : ¬ C.n ∣ coefAt coef j) :
+    batchVerify (EC.ops C) prm coef (it0 :: it1 :: rest) = false := by
+  rw [← batchVerify_eq K hL]
+  exact batch_one_bad_fails_ec K h34 prm coef it0 it1 rest j bad hj (by rw [verify_eq K hL]; exact hbad)
+    (fun k it' hk hne => by rw [verify_eq K hL]; exact hothers k it' hk hne) hcoef
+
+theorem batch_at_most_one_coeff_raw (h34 : p % 4 = 3) (prm : Params) (coef coef' : ℕ → ℤ) (it0 it1 : Item)
+    (rest : List Item) (j : ℕ) (bad : Item) (hj1 : 1 ≤ j)
+    (hj : (it0 :: it1 :: rest)[j]? = some bad)
+    (hbad : Schnorr.verify (EC.ops C) prm bad.msg bad.xQ bad.sg = false)
+    (hagree : ∀ i, i ≠ j → coef i = coef' i)
+    (h1 : batchVerify (EC.ops C) prm coef (it0 :: it1 :: rest) = true)
+    (h2 : batchVerify (EC.ops C) prm coef' (it0 :: it1 :: rest) = true) :
+    C.n ∣ coef j - coef' j := by
+  rw [← batchVerify_eq K hL] at h1 h2
+  rw [← verify_eq K hL] at hbad
+  exact Schnorr.batch_at_most_one_coeff (lawful_ec K h34) prm coef coef' it0 it1 rest j bad hj1 hj hbad hagree
+    ((batchVerify_eq_true_iff prm coef _).1 h1) ((batchVerify_eq_true_iff prm coef' _).1 h2)
+
+end Transfer
+
+/-- secp256k1's discriminant `−16·27·7²` is not zero in its field -/
+theorem secp_delta_ne_zero_c03 : (curveOf secp256k1_p secp256k1.toCurveGroup).toAffine.Δ ≠ 0 := by
+  have ha : secp256k1.toCurveGroup.a = 0 := by decide +kernel
+  have hb : secp256k1.toCurveGroup.b = 7 := by decide +kernel
+  unfold curveOf swc
+  simp only [WeierstrassCurve.Δ, WeierstrassCurve.b₂, WeierstrassCurve.b₄, WeierstrassCurve.b₆, WeierstrassCurve.b₈, ha, hb]
+  norm_num
+  intro h
+  have h' : ((21168 : ℕ) : ZMod secp256k1_p) = 0 := by exact_mod_cast h
+  rw [ZMod.natCast_eq_zero_iff] at h'
+  have := Nat.le_of_dvd (by norm_num) h'
+  have hp : 21168 < secp256k1_p := by decide +kernel
+  omega
+
+/-- under the ONE remaining assumption about secp256k1 — its group has cofactor one (every point of the curve has
+    order dividing `n`; not proved: Mathlib has no point count / Hasse bound), spelled out at every use so that no shared
+    name is needed — the restricted `lift_x` is the executed one -/
+theorem secp_liftAgree03 (hcof : ∀ g : SecpGroup, secp256k1.n • g = 0) :
+    ∀ x : ℤ, (secpOps.liftX x).map Subtype.val = (EC.ops secp256k1).liftX x :=
+  @liftAgree03 secp256k1_p ⟨secp256k1_p_prime⟩ secp256k1 secpOk secp256k1_h34 hcof secp_delta_ne_zero_c03
 
 /-! ## secp256k1: no assumption (primality of `p`, `n`: `secp256k1_p_prime`, `secp256k1_n_prime`, Pratt certificates) -/
 
